@@ -30,10 +30,15 @@ rc, o = run(democmd, cwd=wt, env=env)
 res["demo_with_change_exit"] = rc
 rc, o = run("/venv/bin/python -m pytest -q -p no:cacheprovider -x 2>&1 | tail -1", cwd=wt)
 res["tests_with_change"] = o.strip()
-run(["git", "-C", wt, "stash"])
+# (not `git stash`: the stash is shared by all worktrees of one repository and other seed agents may be using it)
+rcd, saved_diff = run(["git", "-C", wt, "diff"])
+tmp_patch = os.path.join(out, ".seedcheck.diff")
+open(tmp_patch, "w").write(saved_diff)
+run(["git", "-C", wt, "apply", "-R", tmp_patch])
 rc, o = run(democmd, cwd=wt, env=env)
 res["demo_without_change_exit"] = rc
-run(["git", "-C", wt, "stash", "pop"])
+run(["git", "-C", wt, "apply", tmp_patch])
+os.unlink(tmp_patch)
 confirmed = res["demo_with_change_exit"] != 0 and res["demo_without_change_exit"] == 0 and "217 passed" in res["tests_with_change"]
 res["confirmed"] = confirmed
 dst = "/verif/seeded/%s" % name
